@@ -1450,15 +1450,29 @@ where
     }
 
     fn visit_mut_expr(&mut self, expr: &mut Expr) {
+        // `x = <C>{x}</C>`: the assignment target matters only while that very
+        // element is lowered, never for JSX met later in unrelated code
+        let is_jsx_assignment = match expr {
+            Expr::Assign(AssignExpr {
+                left: AssignTarget::Simple(SimpleAssignTarget::Ident(binding_ident)),
+                right,
+                ..
+            }) if strip_parens(right).is_jsx_element() => {
+                self.assignment_left = Some(binding_ident.id.clone());
+                true
+            }
+            _ => false,
+        };
+
         expr.visit_mut_children_with(self);
+
+        if is_jsx_assignment {
+            self.assignment_left = None;
+        }
 
         match expr {
             Expr::JSXElement(jsx_element) => *expr = self.transform_jsx_element(jsx_element),
             Expr::JSXFragment(jsx_fragment) => *expr = self.transform_jsx_fragment(jsx_fragment),
-            Expr::Assign(AssignExpr {
-                left: AssignTarget::Simple(SimpleAssignTarget::Ident(binding_ident)),
-                ..
-            }) => self.assignment_left = Some(binding_ident.id.clone()),
             _ => {}
         }
     }
@@ -1635,6 +1649,13 @@ where
             "name",
             Expr::Lit(Lit::Str(quote_str!(name.sym.clone()))),
         );
+    }
+}
+
+fn strip_parens(expr: &Expr) -> &Expr {
+    match expr {
+        Expr::Paren(ParenExpr { expr, .. }) => strip_parens(expr),
+        expr => expr,
     }
 }
 
